@@ -50,7 +50,7 @@ CHECKS = {
     },
     "C03": {
         "level": "other",
-        "technique": "static: sibling comparison of extracted summaries (stencil tables, ghost-cell stores, dispatch order, effect summaries); call-site/definition signature rule; loop-carried-dependence rule for nb.prange",
+        "technique": "static: sibling comparison of extracted summaries (stencil tables, ghost-cell stores, dispatch order, effect summaries, sparse-matrix rows); symbolic small-shape interpretation of the dot/outer routes; call-site/definition signature rule; loop-carried-dependence and shared-write rules for nb.prange",
         "text": "Decides agreement of routes on what the code computes, for all inputs: scipy.ndimage kernels equal the numba kernels as "
         "stencil tables (all Cartesian operators, 1-3 axes, all methods); interpreted and compiled ghost-cell setters perform the same "
         "store (index and value) for every boundary class/side/axis and serve sides (high, low) and axes in the same order; the four "
@@ -180,7 +180,7 @@ CHECKS = {
     },
     "C19": {
         "level": "proof",
-        "technique": "static: sympy identities (modulo Pythagorean ideals) on coordinate maps extracted by abstract interpretation; index-space typing of component order (grid axes + symmetric axes) versus coordinate-system order",
+        "technique": "static: sympy identities (modulo Pythagorean ideals) on coordinate maps extracted by abstract interpretation; index-space typing of component order versus coordinate-system order; abstract interpretation of the tensor algebra on small concrete shapes with symbolic entries (pdelint/npsem.py) against the defining index formulas; structural route rules for grid conversion",
         "text": "(a) For Cartesian 1-3d, polar, spherical, cylindrical, bipolar and bispherical coordinates the extracted _basis_rotation is proved "
         "orthonormal with det +1 and equal to the normalised transposed Jacobian, the extracted _mapping_jacobian equal to the derivative of "
         "the extracted _pos_to_cart, and the scale factors equal to the column norms. (b) One component order: the order used by operators "
@@ -193,7 +193,7 @@ CHECKS = {
     },
     "C12": {
         "level": "proof",
-        "technique": "static: abstract interpretation of geometry helpers and coordinate classes into sympy; exact integrals and sums; template matching for point normalisation; index-space typing of the periodicity flags handed to _difference_vector",
+        "technique": "static: abstract interpretation of geometry helpers and coordinate classes into sympy; exact integrals and sums; interpretation of normalize_point / integrate on arrays of symbols over all flag, axes and rank combinations (pdelint/npsem.py); structural leaf domain for sub-grid construction (pdelint/gridleaf.py); index-space typing of the periodicity flags handed to _difference_vector",
         "text": "Proved identically in shape, bounds, spacing and inner radius: documented cell-centre formula; n-ball volumes; for each grid "
         "class the product of cell_volume_data equals the exact integral of the extracted volume factor over the cell and the sum over all "
         "cells equals the `volume` property (r_min = 0 and > 0); for all coordinate classes volume factor = |det J| = product of scale "
